@@ -28,6 +28,13 @@ func getTool() (*wdrv.Tool, error) {
 // checkC04Units compiles a batch and compares every history's trace with the
 // reference interpreter's (monitors off: the trace is what is compared).
 func checkC04Units(t interface{ Fatalf(string, ...any) }, cs []Case, ps []*winterp.Program) {
+	checkUnits(t, "C04", cs, ps)
+}
+
+// protocolStatuses are the statuses the generated prologue answers a deviating call with.
+var protocolStatuses = []string{"#base: initialize not called", "#base: disabled by previous error", "#base: interleaved coroutine calls", "#base: bad argument", "#base: bad receiver"}
+
+func checkUnits(t interface{ Fatalf(string, ...any) }, prop string, cs []Case, ps []*winterp.Program) {
 	tl, err := getTool()
 	if err != nil {
 		t.Fatalf("INTERNAL: %v", err)
@@ -63,8 +70,8 @@ func checkC04Units(t interface{ Fatalf(string, ...any) }, cs []Case, ps []*winte
 		}
 		csrc, err := tl.GenC(c.Pkg, []byte(c.Src))
 		if err != nil {
-			ev.Fail("C04", "program", c, "the checker accepts the program but wuffs-c gen fails: "+err.Error())
-			t.Fatalf("C04 violated: wuffs-c gen fails on an accepted program: %v\n%s", err, numbered(c.Src))
+			ev.Fail(prop, "program", c, "the checker accepts the program but wuffs-c gen fails: "+err.Error())
+			t.Fatalf(prop+" violated: wuffs-c gen fails on an accepted program: %v\n%s", err, numbered(c.Src))
 		}
 		units = append(units, wdrv.Unit{Prog: ps[i], CSource: csrc, Histories: c.Histories})
 		want = append(want, tr)
@@ -80,8 +87,8 @@ func checkC04Units(t interface{ Fatalf(string, ...any) }, cs []Case, ps []*winte
 			for k := range units {
 				if _, _, e1 := tl.RunBatch(units[k:k+1], wdrv.SanFlags); e1 != nil {
 					c := cs[keep[k]]
-					ev.Fail("C04", "program", c, "the emitted C is rejected by gcc: "+e1.Error())
-					t.Fatalf("C04 violated: the C emitted for an accepted program does not compile:\n%s\n%s", e1, numbered(c.Src))
+					ev.Fail(prop, "program", c, "the emitted C is rejected by gcc: "+e1.Error())
+					t.Fatalf(prop+" violated: the C emitted for an accepted program does not compile:\n%s\n%s", e1, numbered(c.Src))
 				}
 			}
 			t.Fatalf("INTERNAL: batch does not compile but every unit does: %v", ce)
@@ -93,8 +100,8 @@ func checkC04Units(t interface{ Fatalf(string, ...any) }, cs []Case, ps []*winte
 		ev.Class("programs-compiled-and-run")
 		if crash[k] != "" {
 			msg := fmt.Sprintf("the compiled program crashed under ASan/UBSan (the interpreter saw nothing wrong): %s", crash[k])
-			ev.Fail("C04", "program", c, msg)
-			t.Fatalf("C04 violated: %s\n%s", msg, numbered(c.Src))
+			ev.Fail(prop, "program", c, msg)
+			t.Fatalf(prop+" violated: %s\n%s", msg, numbered(c.Src))
 		}
 		for hi := range c.Histories {
 			got := ""
@@ -104,15 +111,28 @@ func checkC04Units(t interface{ Fatalf(string, ...any) }, cs []Case, ps []*winte
 			ev.Class("histories-compared")
 			if got != want[k][hi] {
 				msg := fmt.Sprintf("history %d: the generated C and the reference semantics disagree.\n--- reference interpreter\n%s--- generated C\n%s--- first difference: %s", hi, want[k][hi], got, firstDiff(want[k][hi], got))
-				ev.Fail("C04", "program", c, msg)
-				t.Fatalf("C04 violated: %s\n%s", msg, numbered(c.Src))
+				ev.Fail(prop, "program", c, msg)
+				t.Fatalf(prop+" violated: %s\n%s", msg, numbered(c.Src))
 			}
 		}
 		steps := 0
 		for _, h := range c.Histories {
 			steps += len(h.Steps)
 		}
-		if steps >= 3 {
+		nontrivial := steps >= 3
+		if prop == "C08" {
+			// non-trivial for C08: the reference predicts at least one protocol status in some history
+			nontrivial = false
+			for _, tr := range want[k] {
+				for _, pst := range protocolStatuses {
+					if n := strings.Count(tr, pst); n > 0 {
+						ev.ClassN("predicted:"+pst, n)
+						nontrivial = true
+					}
+				}
+			}
+		}
+		if nontrivial {
 			ev.Nontrivial(srcHash(c), func() any {
 				return map[string]any{"src": c.Src, "mutation": c.Mutation, "first_history": c.Histories[0], "first_trace": want[k][0]}
 			})
